@@ -8,13 +8,38 @@ from .common import decode_paths
 ACTION = "rsadsb_common::Airplanes::action"
 
 
+PICK = 0       # which path of each label is the representative (0 in the quick tier; the thorough tier also runs 1, 2, ...)
+
+
 def representative_paths(oks):
-    reps = {}
+    groups = {}
     for p in oks:
         if "Capability::Reserved" in p.label or "DownlinkRequest::Unknown" in p.label:
             continue
-        reps.setdefault(p.label, p)
-    return reps
+        groups.setdefault(p.label, []).append(p)
+    return {l: ps[PICK] for l, ps in groups.items() if len(ps) > PICK}
+
+
+def alt_passes(rep, tier, oks, fn):
+    """run fn() on the first grammar path of every frame kind; in the thorough tier also on the 2nd, 3rd, ... path of each kind
+    (kinds with several grammar paths differ in nested choices such as the altitude coding). Floors apply to the first pass only."""
+    global PICK
+    fn()
+    if tier != "thorough":
+        return 1
+    groups = {}
+    for p in oks:
+        groups[p.label] = groups.get(p.label, 0) + 1
+    maxk = max(groups.values()) if groups else 1
+    for k in range(1, maxk):
+        PICK = k
+        rep.no_floors = True
+        try:
+            fn()
+        finally:
+            PICK = 0
+            rep.no_floors = False
+    return maxk
 
 
 def stub_get_position(ctx):
@@ -29,6 +54,8 @@ def stub_get_position(ctx):
     ctx.fr.tag = "position_fn"
     pos = AdtVal("adsb_deku::cpr::Position", 0, [FloatVal(64, term=("sym", "cpr_lat")), FloatVal(64, term=("sym", "cpr_lon"))], vname="Position")
     s2 = ctx.st.copy()
+    ctx.st.events.append({"kind": "get_position_result", "some": True})
+    s2.events.append({"kind": "get_position_result", "some": False})
     return ctx.ret_states([(ctx.st, some(pos)), (s2, NONE)])
 
 
